@@ -228,12 +228,13 @@ func (h *H) projHeader(g *Gen, ci int, mode string) {
 	wanted := []string{"Hash", "GlobalStateRoot", "TransactionCount", "Timestamp", "EventsBloom"}
 	for vi, v := range variants(g.R, es, wanted, des) {
 		raw := assemble(nil, v.es)
-		d := memory.New()
+		mem := memory.New()
 		const num = 42
-		if err := d.Put(db.BlockHeaderByNumberKey(num), raw); err != nil {
+		if err := mem.Put(db.BlockHeaderByNumberKey(num), raw); err != nil {
 			res.Note("proj: put: %v", err)
 			return
 		}
+		var d db.KeyValueStore = newPoisonStore(mem) // reads see recycled buffers
 		res.Hit("proj-header:" + v.name)
 		res.Case(fmt.Sprintf("proj-header/%s", hx(raw)), true)
 		replay := func(acc, detail string) any {
@@ -371,7 +372,7 @@ func (h *H) projBlob(g *Gen, ci int, mode string) {
 		raw := append(hb, data...)
 		d := memory.New()
 		_ = d.Put(blobKey(9), raw)
-		return d, raw
+		return newPoisonStore(d), raw
 	}
 	// --- receipts -----------------------------------------------------------------------------
 	for vi, v := range variants(g.R, res1, []string{"Reverted", "RevertReason", "Events", "TransactionHash"}, dres) {
